@@ -113,7 +113,7 @@ func c03xDecList4(s string) ([]*dhcpv4.DHCPv4, bool) {
 	return out, true
 }
 
-func execC03x(op string, args []string) string {
+func c03xExec(op string, args []string) string {
 	if len(args) == 0 {
 		return "bad-op"
 	}
@@ -476,7 +476,7 @@ func c03xHexList(bs [][]byte) string {
 	return strings.Join(s, ",")
 }
 
-func genC03x(r *Rng, thorough bool) (string, []string) {
+func c03xGen(r *Rng, thorough bool) (string, []string) {
 	k := r.Intn(100)
 	switch {
 	case k < 34:
@@ -564,11 +564,11 @@ func genC03x(r *Rng, thorough bool) (string, []string) {
 	}
 }
 
-// enumC03x (thorough): every chain depth 0..8, with and without a
+// c03xEnum (thorough): every chain depth 0..8, with and without a
 // relay-message option at the innermost level, under every index -3..depth+3
 // and the other relay observers; every conversation of length <= 3 over a
 // curated pool of 8 messages.
-func enumC03x(emit func(string)) {
+func c03xEnum(emit func(string)) {
 	r := NewRng(0xc03)
 	for depth := 0; depth <= 8; depth++ {
 		for _, mal := range []string{"", "no-relaymsg"} {
@@ -635,11 +635,11 @@ var _ = time.Second
 func init() {
 	register(&Stream{
 		Name: "c03x",
-		Gen:  genC03x,
-		Exec: execC03x,
+		Gen:  c03xGen,
+		Exec: c03xExec,
 		Nontrivial: func(line, out string) bool {
 			return out != "decerr" && out != "bad-op"
 		},
-		Enumerate: enumC03x,
+		Enumerate: c03xEnum,
 	})
 }
